@@ -17,8 +17,9 @@ Import ListNotations.
    (or at any step with stepZeroData):
    (bin occupied by the variables at the step the force was exerted,
     force measured on the variable for that step - the force Colvars itself was applying at that step
-    [the ABF force, and the Jacobian compensation of hideJacobian; every Colvars force for a variable with
-    subtractAppliedForce] + the Jacobian term unless hideJacobian),
+    [the ABF force AS APPLIED, i.e. times the scaledBiasingForce factor, and the Jacobian compensation of
+    hideJacobian; every Colvars force for a variable with subtractAppliedForce]
+    + the Jacobian term unless hideJacobian),
    in both timing conventions, with other biases, run boundaries, values inside and outside the grid,
    one or more variables.  [wf_cfg]: stepZeroData only with same-step forces (the code rejects it
    otherwise).
@@ -97,6 +98,16 @@ Theorem C04_applied_force_is_smoothed_negative_mean_partial :
 Proof. exact applied_force_is_smoothed_negative_mean. Qed.
 Print Assumptions C04_applied_force_is_smoothed_negative_mean_partial.
 
+(* what the variable receives from the bias is that force times the factor of the scaling grid at the current
+   bin when scaledBiasingForce is on (1 otherwise) *)
+Theorem C04_applied_force_scaled :
+  forall (c : @abf_cfg R) (s : @abf_state R) (i : @abf_in R) (k : nat),
+    (k < c_nd c)%nat ->
+    vget Rops (o_fapp (snd (abf_step Rops c s i))) k
+    = (vget Rops (o_fabf (snd (abf_step Rops c s i))) k * sfac Rops c (bins Rops c (i_x i)))%R.
+Proof. exact applied_force_scaled. Qed.
+Print Assumptions C04_applied_force_scaled.
+
 Theorem C04_no_force_outside_grid :
   forall (c : @abf_cfg R) (s : @abf_state R) (i : @abf_in R) (k : nat),
     c_apply c && index_ok c (bins Rops c (i_x i)) = false ->
@@ -153,7 +164,7 @@ Print Assumptions C04_run_boundary_history.
 (* wf_cfg and jac_ok hold for a lagged configuration with hideJacobian (non-vacuously: applyBias on), with a
    two-step history; jac_ok holds for every configuration without hideJacobian or with same-step forces *)
 Example C04_example_wf :
-  let c := @mkCfg R 1 [0%R] [1%R] [2%Z] [false] 2 1 true true false [0%R] false false [false] true [false] in
+  let c := @mkCfg R 1 [0%R] [1%R] [2%Z] [false] 2 1 true true false [0%R] false false [false] true [false] true (fun _ => (1/2)%R) in
   let h := [@mkIn R [(1/2)%R] [1%R] [0%R] [3%R] false; @mkIn R [(1/2)%R] [0%R] [0%R] [3%R] false] in
   wf_cfg c /\ jac_ok c /\ c_hidej c = true /\ c_same_step c = false /\ length (trace_of Rops c h) = 2%nat.
 Proof. exact example_wf_lagged. Qed.
@@ -172,7 +183,8 @@ Proof. exact started_after_step. Qed.
    E3:    periodic grid at count = minSamples: no force in either bin;  E3b: during the ramp the two bins get
           -5/4 and +5/4;
    E4:    hideJacobian with a non-zero Jacobian force, same-step and lagged: the samples are the engine
-          force 1 and the variable receives ABF force - fj. *)
+          force 1 and the variable receives ABF force - fj;
+   E6:    scaledBiasingForce 1/2, lagged: ABF force -2, applied -1, every sample is the engine force 2. *)
 Example C04_example_E1 :
   stored_cnt e1_cfg e1_hist [0%Z] = 2%Z /\ spec_cnt e1_cfg e1_hist [0%Z] = 2%Z /\
   Qeq_bool (stored_sum e1_cfg e1_hist [0%Z] 0) (-(1)) = true /\
@@ -197,3 +209,9 @@ Example C04_example_E4 :
   Qeq_bool (last_applied e4_cfg e4_hist) (-(4#1)) = true /\
   stored_cnt e4l_cfg e4l_hist [0%Z] = 3%Z /\ Qeq_bool (stored_sum e4l_cfg e4l_hist [0%Z] 0) (-(3#1)) = true.
 Proof. exact e4_values. Qed.
+Example C04_example_E6 :
+  stored_cnt e6_cfg e6_hist [0%Z] = 3%Z /\ spec_cnt e6_cfg e6_hist [0%Z] = 3%Z /\
+  Qeq_bool (stored_sum e6_cfg e6_hist [0%Z] 0) (-(6#1)) = true /\
+  Qeq_bool (spec_sum e6_cfg e6_hist [0%Z] 0) (-(6#1)) = true /\
+  Qeq_bool (last_applied e6_cfg e6_hist) (-(1)) = true.
+Proof. exact e6_values. Qed.
